@@ -74,6 +74,13 @@ def cases(tier, rng):
     # '*' inside
     for s in (b"*", b"A*", b"*A", b"A*B", b"**", b"1*2*3"):
         lines += enc_cases(s)
+    # lengths around the Code 93 weight wraps (K: 15, C: 20) with one repeated character, so that a
+    # broken weight rule shows on a small input
+    for n in (13, 14, 15, 16, 17, 19, 20, 21, 22, 30, 31, 40, 41):
+        for ch in (b"1", b"A", b"%"):
+            lines += enc_cases(ch * n, basic_mix)
+        lines += enc_cases(b"\xc3\xb1" * n, basic_mix, ("c93",))
+        lines += enc_cases(b"a" * ((n + 1) // 2), full_mix)
     # random: basic alphabet, full ASCII, arbitrary bytes
     allb = one(range(256))
     for _ in range(nrand):
@@ -127,9 +134,21 @@ def oracle_lines(lines, impl_outs):
 
 
 def oracle_verdict(line, impl_out, oracle_out):
-    want = "SOME " + line.split(" ")[3]
-    if oracle_out != want:
-        return "reference decoder reads %s from the symbol, the text was %s" % (oracle_out, want)
+    t = line.split(" ")
+    f = impl_out.split(" ")
+    # OK <kind> <dims> 0,0-<w>x<h> <content> <checksum|-> <row>
+    kind = "Code_39" if t[0] == "c39" else "Code_93"
+    if f[1] != kind or f[2] != "1" or f[3] != "0,0-%dx1" % len(f[6]) or "/" in f[6] or "?" in f[6]:
+        return "kind/dimensions/bounds are not those of a one-row %s symbol: %s" % (kind, " ".join(f[1:4]))
+    o = oracle_out.split(" ")
+    if o[0] != "SOME" or len(o) != 4:
+        return "reference decoder rejects the symbol (%s), the text was %s" % (oracle_out, t[3])
+    if o[1] != t[3]:
+        return "reference decoder reads %s from the symbol, the text was %s" % (o[1], t[3])
+    if o[2] != f[4]:
+        return "Content() is %s, the data characters of the symbol print as %s" % (f[4], o[2])
+    if o[3] != f[5]:
+        return "CheckSum() is %s, the data characters of the symbol give %s" % (f[5], o[3])
     return None
 
 
@@ -191,4 +210,5 @@ RULE = ("basic mode: exhaustive over all texts of length 0..2 over the 43 charac
         "'*' inside, random texts (lengths around the weight wraps 15/20 and up to 2500) over the basic alphabet, "
         "ASCII and arbitrary bytes; helper functions (getChecksum, prepare) and the UTF-8 model against Go's "
         "decoder/encoder.  Oracle: the extracted reference decoder applied to the implementation's pixel row must "
-        "return the input text.  non-trivial = an accepted text (symbol produced); distinct = distinct case line")
+        "return the input text; Content() must be the printed data characters and CheckSum() the sum mod 43 read "
+        "from the row; kind/bounds those of a one-row symbol.  non-trivial = an accepted text (symbol produced); distinct = distinct case line")
